@@ -10,6 +10,7 @@ generated algorithm call and PSy routine are itemised (c24_gen) and TLC
 decides the clauses per invoke (Trace_InvokeBinding.tla).'''
 import json
 import os
+import re
 import shutil
 
 from pv import core
@@ -17,10 +18,6 @@ from pv import c24_gen as gen
 
 
 # ------------------------------------------------------------ known findings
-def _ctx(case):
-    return case.get("path"), case.get("api")
-
-
 def _canon(t):
     return "".join(t.split()).lower()
 
@@ -69,11 +66,45 @@ def m_name_prefix(case, clause, detail, finding):
             and "invoke_" + label in [s.lower() for s in case["subs"]])
 
 
+def m_named_single_builtin(case, clause, detail, finding):
+    '''LFRic PSyIR-based algorithm layer only: a *named* invoke that consists of
+    one built-in: the algorithm calls invoke_<position>, the PSy layer defines
+    invoke_<label>.'''
+    if case.get("path") != "psyir" or case.get("api") != "lfric" \
+            or clause != "NameDefined" or not case.get("label"):
+        return False
+    src = case["source_invoke"]
+    if len(src) != 1 or src[0][0] not in gen.LFRIC_BUILTINS:
+        return False
+    label = case["label"].lower()
+    want = label if label.startswith("invoke_") else "invoke_" + label
+    return (case["call"].lower() == "invoke_%d" % case["invoke"]
+            and want in [s.lower() for s in case["subs"]])
+
+
 MATCHERS = {"c24_psyir_member_case": m_member_case,
-            "c24_psyir_name_prefix": m_name_prefix}
+            "c24_psyir_name_prefix": m_name_prefix,
+            "c24_psyir_named_single_builtin": m_named_single_builtin}
 
 
 # ------------------------------------------------------------------ helpers
+def _cfg(name, tmp):
+    '''The static configuration, or a copy with Offset (VERIF_SEED) / Stride
+    (development aid PV_C24_STRIDE) substituted.'''
+    stride = os.environ.get("PV_C24_STRIDE")
+    if core.seed() == 0 and not stride:
+        return name
+    with open(os.path.join(core.SPEC, name)) as f:
+        text = f.read()
+    if stride:
+        text = re.sub(r"Stride = \d+", "Stride = %d" % int(stride), text)
+    text = re.sub(r"Offset = \d+", "Offset = %d" % core.seed(), text)
+    path = os.path.join(tmp, name)
+    with open(path, "w") as f:
+        f.write(text)
+    return path
+
+
 def _shapes(cfg, spec_cov, workers):
     '''TLC enumerates the family and checks the reference generator.'''
     res = core.run_tlc("InvokeBinding.tla", cfg, check=False, workers=workers)
@@ -92,10 +123,13 @@ def _shapes(cfg, spec_cov, workers):
     return [by_id[i] for i in sorted(by_id)]
 
 
-def _selftest_keys(workers):
+def _selftest_keys(workers, quick):
     '''The reference generator with mismatched keys must break the clauses:
     the specification is sensitive to exactly what the check is for.'''
-    for cfg in ("InvokeBinding_rawalg.cfg", "InvokeBinding_lowerpsy.cfg"):
+    cfgs = ["InvokeBinding_rawalg.cfg"]
+    if not quick:
+        cfgs.append("InvokeBinding_lowerpsy.cfg")
+    for cfg in cfgs:
         res = core.run_tlc("InvokeBinding.tla", cfg, check=False,
                            workers=workers)
         if not res.invariant_violated:
@@ -138,20 +172,20 @@ def validate(cases, cov, tmp, workers=None):
     return res.printed("VERDICT"), res.printed("DIVERGE")
 
 
-def _run_family(out, cov, tmp, shapes, api, dm, stats):
-    decoded = [gen.decode_shape(s) for s in shapes]
-    jobs = [(d, api, dm, tmp) for d in decoded]
+def _run_shapes(out, cov, tmp, shapes, dm, stats):
+    '''Generate every shape with the real generator, itemise, let TLC judge.'''
+    decoded = [(gen.decode_shape(s), s["api"]) for s in shapes]
+    jobs = [(d, api, dm, tmp) for d, api in decoded]
     results = core.pool_map(gen.work, jobs, chunksize=2)
     cases = []
     meta = {}
-    for d, r in zip(decoded, results):
+    for (d, api), r in zip(decoded, results):
         stats["files"] += 1
         for pname, val in r["paths"].items():
             stats["generations"] += 1
             key = f"{api}/{pname}"
             if val[0] == "refused":
                 stats["refused"] += 1
-                why = val[1].split(":")[0] + ":" + val[1].split(":", 2)[-1][:90]
                 stats["refused_kinds"][val[1][:110]] = \
                     stats["refused_kinds"].get(val[1][:110], 0) + 1
                 continue
@@ -166,11 +200,10 @@ def _run_family(out, cov, tmp, shapes, api, dm, stats):
                              "why": c})
                     continue
                 cid = len(cases) + 1
-                c = dict(c, id=cid)
-                cases.append(c)
-                meta[cid] = (d, pname, iidx, dm)
+                cases.append(dict(c, id=cid))
+                meta[cid] = (d, api, pname, iidx)
     if not cases:
-        raise core.MachineryError("no case could be itemised for " + api)
+        raise core.MachineryError("no generated invoke could be itemised")
     verdicts, diverges = validate(cases, cov, tmp)
     stats["divergences"] += len(diverges)
     cov["traces_validated_against_impl"] += len(cases)
@@ -180,14 +213,17 @@ def _run_family(out, cov, tmp, shapes, api, dm, stats):
                                           c["kargs"], c["orig"]]))
     by_id = {c["id"]: c for c in cases}
     for v in verdicts:
-        d, pname, iidx, dmv = meta[v["id"]]
+        d, api, pname, iidx = meta[v["id"]]
         desc = _describe(d, pname, api, iidx, by_id[v["id"]])
-        desc["distributed_memory"] = dmv
+        desc["distributed_memory"] = dm
         out.violation(desc, v["v"], v["w"])
-    if len(cov["samples"]) < 4:
-        c = cases[len(cases) // 3]
-        d, pname, iidx, _ = meta[c["id"]]
-        cov["samples"].append(_describe(d, pname, api, iidx, c))
+    for want in ("lfric", "gocean"):
+        if len(cov["samples"]) < 4:
+            mine = [c for c in cases if meta[c["id"]][1] == want]
+            if mine:
+                c = mine[len(mine) // 3]
+                d, api, pname, iidx = meta[c["id"]]
+                cov["samples"].append(_describe(d, pname, api, iidx, c))
     return cases, meta
 
 
@@ -201,23 +237,16 @@ def run(tier):
              "divergences": 0, "positions": 0, "distinct": set(),
              "by_path": {}}
     quick = tier == "quick"
-    _selftest_keys(core.NCPU)
     tmp = core.mktemp("pv-c24-")
     try:
-        # LFRic family
+        _selftest_keys(core.NCPU, quick)
         cfg = "InvokeBinding_quick.cfg" if quick else "InvokeBinding_thorough.cfg"
-        shapes = _shapes(cfg, cov, core.NCPU)
-        cov["shapes_lfric"] = len(shapes)
-        _run_family(out, cov, tmp, shapes, "lfric", False, stats)
+        shapes = _shapes(_cfg(cfg, tmp), cov, core.NCPU)
+        cov["shapes_lfric"] = sum(1 for s in shapes if s["api"] == "lfric")
+        cov["shapes_gocean"] = sum(1 for s in shapes if s["api"] == "gocean")
+        _run_shapes(out, cov, tmp, shapes, False, stats)
         if not quick:
-            _run_family(out, cov, tmp, shapes, "lfric", True, stats)
-        # GOcean family (the PSyIR-based algorithm layer is the default there)
-        gcfg = "InvokeBindingGO_quick.cfg" if quick else \
-            "InvokeBindingGO_thorough.cfg"
-        if os.path.exists(os.path.join(core.SPEC, gcfg)):
-            gshapes = _shapes_go(gcfg, cov, core.NCPU)
-            cov["shapes_gocean"] = len(gshapes)
-            _run_family(out, cov, tmp, gshapes, "gocean", False, stats)
+            _run_shapes(out, cov, tmp, shapes, True, stats)
     finally:
         shutil.rmtree(tmp, ignore_errors=True)
     judged = cov["traces_validated_against_impl"]
@@ -244,7 +273,7 @@ def run(tier):
                    "kernel-argument provenance, source texts) tuples")
     return out.finish(cov, assumptions=[
         "family bounds: InvokeBinding.tla Part 2 (13 field texts, 11 scalar "
-        "texts, 5 labels; pair/scalar/double families; quick = every 2nd shape)",
+        "texts, 5 labels; LFRic pair/scalar/double and GOcean gopair/goscalar families; quick = every 3rd shape, offset VERIF_SEED)",
         "kernel-argument provenance is read from the generated PSy text: "
         "X_data => X_proxy%data, X_proxy = D%get_proxy() gives dummy D; scalars "
         "and literals directly; built-ins by their documented assignment form",
@@ -254,16 +283,3 @@ def run(tier):
         "LFRic PSyIR-based algorithm layer reached by setting "
         "psyclone.generator.LFRIC_TESTING=True (the flag the repository's own "
         "tests use)"])
-
-
-def _shapes_go(cfg, cov, workers):
-    res = core.run_tlc("InvokeBindingGO.tla", cfg, check=False, workers=workers)
-    if res.invariant_violated or res.error:
-        raise core.MachineryError("InvokeBindingGO.tla: "
-                                  + str(res.invariant_violated or res.error))
-    cov["states"] += res.distinct
-    cov["transitions"] += res.generated
-    by_id = {s["id"]: s for s in res.printed("SHAPE")}
-    if not by_id:
-        raise core.MachineryError("TLC printed no GOcean shapes")
-    return [by_id[i] for i in sorted(by_id)]
